@@ -38,13 +38,14 @@ def write_cfg(name, consts, invariants=("Emit",)):
     return name
 
 
-def generate(chk, label, consts, timeout=900, workers=12, simulate=None, depth=None):
-    """Run LangGen with the given constants; returns the REPLAY records."""
-    cfg = write_cfg(f"LangGen_{label}_run", consts)
-    r = vlib.run_tlc("LangGen", cfg, timeout=timeout, workers=workers, simulate=simulate, depth=depth)
+def generate(chk, label, consts, timeout=900, workers=12, simulate=None, depth=None, module="LangGen",
+             invariants=("Emit",)):
+    """Run LangGen (or a module extending it) with the given constants; returns the REPLAY records."""
+    cfg = write_cfg(f"{module}_{label}_run", consts, invariants=invariants)
+    r = vlib.run_tlc(module, cfg, timeout=timeout, workers=workers, simulate=simulate, depth=depth)
     if r.violation:
-        raise vlib.ToolError(f"LangGen[{label}] reported {r.violation}: " + vlib.tlc_error_trace(r.stdout)[:1500])
-    chk.tlc(r, f"LangGen[{label}]")
+        raise vlib.ToolError(f"{module}[{label}] reported {r.violation}: " + vlib.tlc_error_trace(r.stdout)[:1500])
+    chk.tlc(r, f"{module}[{label}]")
     # TLC's workers print in a nondeterministic order: fix the order of the behaviours
     return sorted(r.tagged["REPLAY"], key=lambda rep: json.dumps(rep, sort_keys=True))
 
